@@ -4,6 +4,7 @@ import (
 	"fmt"
 	"sort"
 	"sync"
+	"time"
 )
 
 func init() { Checks["C08"] = CheckC08 }
@@ -245,6 +246,7 @@ func CheckC08(l *Lab, verifDir string) int {
 	}
 	close(ch)
 	wg.Wait()
+	c08LockStep(rep, f, session)
 	return rep.Finish(50)
 }
 
@@ -328,5 +330,69 @@ func c08One(rep *Report, f0, f *Fixture, canon map[string]*PipeResult, j c08Job)
 	}
 	if j.unframeable && r.HostBytes > 0 && len(syms) < 5 {
 		rep.Violate("C08/relayed-after-unframeable/"+j.tr, "bytes reached the host although the stream became unframeable before any data packet", detail)
+	}
+}
+
+// c08LockStep: the client waits for each response before it sends the next
+// packet, and every packet arrives in two or three fragments whose last one is
+// 1..7 bytes long (shorter than a header): a packet that is complete in the
+// byte stream must be processed without anything following it.
+func c08LockStep(rep *Report, f *Fixture, session []Sym) {
+	for _, tr := range Transports() {
+		for tail := 1; tail <= 7; tail++ {
+			for _, three := range []bool{false, true} {
+				f.ResetBackends()
+				env := f.Env(tr)
+				W := 5 * time.Second
+				t, _, err := env.OpenTunnel(NewConnID("ls"))
+				if err != nil || t == nil {
+					rep.Inconclusive("lock-step open")
+					continue
+				}
+				want := 0
+				failed := ""
+				for si, sym := range session {
+					w := sym.Wire
+					var frags [][]byte
+					if three && len(w) > tail+4 {
+						frags = [][]byte{w[:3], w[3 : len(w)-tail], w[len(w)-tail:]}
+					} else {
+						frags = [][]byte{w[:len(w)-tail], w[len(w)-tail:]}
+					}
+					for _, fr := range frags {
+						if len(fr) == 0 {
+							continue
+						}
+						t.Send(fr)
+						time.Sleep(3 * time.Millisecond)
+					}
+					// HS, TC, TA, CC and CLOSE are answered; DATA / KEEPALIVE are not
+					switch sym.Kind {
+					case "HS", "TC", "TA", "CC", "CLOSE":
+						want++
+						if got, _ := t.WaitPackets(want, W); got < want && !(sym.Kind == "CLOSE" && t.Snapshot().OutEnded) {
+							failed = fmt.Sprintf("packet %d (%s) delivered in %d fragments, the last of %d bytes, was not answered within %v", si, sym.Kind, len(frags), tail, W)
+						}
+					}
+					if failed != "" {
+						break
+					}
+				}
+				snap := t.Snapshot()
+				t.Close()
+				rep.Eval(HashStr("lock-step", tr, tail, three, len(snap.Packets)))
+				rep.Count("cases/lock-step-fragments", 1)
+				if failed != "" {
+					rep.Violate("C08/fragmented-packet-not-processed/"+tr, failed, map[string]any{"transport": tr, "tail_bytes": tail, "three_fragments": three, "trace": snap.Log})
+					continue
+				}
+				for i, p := range snap.NonData() {
+					if st, _ := LenientStatus(p.Raw); st != 0 {
+						rep.Violate("C08/responses-differ-from-model/"+tr+"/lock-step-fragments", fmt.Sprintf("response %d of a valid session delivered in fragments carries status %#x", i, st), map[string]any{"transport": tr, "tail_bytes": tail, "trace": snap.Log})
+						break
+					}
+				}
+			}
+		}
 	}
 }
